@@ -23,6 +23,7 @@ Layers (DESIGN.md §8 C14; model coq/Model/Resume.v, theorems coq/Props/C14.v):
 """
 from __future__ import annotations
 
+import asyncio
 import copy
 import datetime
 import itertools
@@ -426,6 +427,8 @@ class Registry:
 
         async def fn(**kw: Any) -> None:
             ix = kw['param']
+            if R.decls[ix].get('slow'):
+                await asyncio.sleep(R.decls[ix]['slow'])        # some real work (virtual time)
             out = R.next_outcome(ix)
             R.pos[ix] += 1
             md = kw['body'].get('metadata', {})
@@ -522,6 +525,7 @@ class World:
         self.rv = 10
         self.objs: dict[str, dict | None] = {}
         self.ghost: dict[str, dict] = {}           # last body of deleted objects
+        self.stream: Any = None                    # the watch stream of the running operator process (end-to-end histories)
         for uid in uids:
             self.objs[uid] = {'apiVersion': 'kopf.dev/v1', 'kind': 'KopfExample',
                               'metadata': {'name': f'obj-{uid}', 'namespace': 'ns1', 'uid': uid, 'resourceVersion': '1',
@@ -574,7 +578,10 @@ class World:
         for fn in patch.fns:
             fn(merged)
         self.objs[uid] = merged
-        return self.bump(merged)
+        rv = self.bump(merged)
+        if self.stream is not None:
+            self.stream.put_nowait({'type': 'MODIFIED', 'object': copy.deepcopy(merged)})
+        return rv
 
     # ---- the harness's own reading of an object
     def deleting(self, obj: dict) -> bool:
@@ -945,6 +952,167 @@ def run_history(ctx: fw.Ctx, env: Env, D: dict[str, list[fw.Case]], spec: dict, 
 
 
 # --------------------------------------------------------------------------------------------
+# End to end: the real queueing.watcher + worker + process_resource_event on a fed watch stream
+# --------------------------------------------------------------------------------------------
+# The models decide about noticed_by_listing / initial at the level of PROCESSED events; that every event put into the
+# stream reaches the processor is C01's clause.  This monitor is the property itself, judged at quiescence: every object that
+# existed when the process started, was handled before, carries no progress records and is not being deleted has every resume
+# handler run to completion exactly once in that process — whatever follows the listing batch in the stream, with and
+# without settings.queueing.worker_limit.
+
+def gen_stream_spec(r: Any, hi: int) -> dict:
+    decls = [{'kind': 'resume', 'fn': 'fn0', 'id': 'h0', 'sel': False, 'script': ['ok'], 'slow': r.choice([0, 0.25, 0.25])}]
+    if r.random() < 0.4:
+        decls.append({'kind': 'resume', 'fn': 'fn1', 'id': 'h1', 'sel': False, 'script': ['ok'], 'slow': 0})
+    if r.random() < 0.5:
+        decls.append({'kind': 'update', 'fn': 'fn2', 'id': 'h2', 'sel': False, 'script': ['ok'], 'slow': 0})
+    if r.random() < 0.3:
+        decls.append({'kind': 'create', 'fn': 'fn3', 'id': 'h3', 'sel': False, 'script': ['ok'], 'slow': 0})
+    uids = [f'uid-s{hi}-{j}' for j in range(r.choice([1, 2, 3, 4]))]
+    states = {u: ('handled' if r.random() < 0.85 else 'never') for u in uids}
+    procs = []
+    for _ in range(r.choice([1, 1, 2])):
+        phases: list[dict] = [{'a': 'listing', 'behind': [{'uid': u, 'what': r.choice(['status', 'status', 'edit'])}
+                                                          for u in uids if r.random() < 0.45]}]
+        for _ in range(r.choice([0, 1, 2, 3])):
+            k = r.choice(['status', 'edit', 'relist', 'run'])
+            if k == 'relist':
+                phases.append({'a': 'listing', 'behind': [{'uid': u, 'what': 'status'} for u in uids if r.random() < 0.3]})
+            elif k == 'run':
+                phases.append({'a': 'run', 'dt': r.choice([1, 7])})
+            else:
+                phases.append({'a': k, 'uid': r.choice(uids), 'settle': r.random() < 0.6})
+        procs.append({'worker_limit': r.choice([None, None, 1, 1, 2]), 'phases': phases})
+    return {'decls': decls, 'uids': uids, 'states': states, 'processes': procs}
+
+
+def run_stream_history(ctx: fw.Ctx, env: Env, spec: dict, name: str) -> None:
+    from kopf._cogs.clients import watching
+    from kopf._core.reactor import queueing
+    decls, uids = spec['decls'], spec['uids']
+    R = Registry(env, decls)
+    W = World(env, R, uids, ctx.rng.__class__(0))
+    for u in uids:
+        W.objs[u]['metadata'].pop('finalizers', None)            # type: ignore[index]
+        W.objs[u]['metadata']['labels'] = {'sel': 'on'}          # type: ignore[index]
+        W.objs[u]['spec'] = {'x': 1}                             # type: ignore[index]
+        if spec['states'][u] == 'handled':
+            W.mark_handled(u)
+    env.world = W
+    loop = vloop.new_loop()
+    orig_watch = watching.infinite_watch
+    resumes = [ix for ix, d in enumerate(decls) if d['kind'] in RESUME_KINDS]
+    summary: list[dict] = []
+    try:
+        with vloop.running(loop):
+            for pi, proc in enumerate(spec['processes']):
+                stream: asyncio.Queue = asyncio.Queue()
+                W.stream = stream
+
+                async def infinite_watch(**_: Any) -> Any:
+                    while True:
+                        yield await stream.get()
+                watching.infinite_watch = infinite_watch
+                settings = copy.copy(env.settings)
+                settings = env.kopf.OperatorSettings()
+                settings.posting.enabled = False
+                settings.queueing.worker_limit = proc['worker_limit']
+                memories = env.inventory.ResourceMemories()
+                # the harness's reading of the objects at the start of the process: who is owed a resume
+                owed = [u for u in uids if W.objs[u] is not None and W.handled_before(W.objs[u]) and not W.deleting(W.objs[u])
+                        and all(W.prog(W.objs[u], h) == 'none' for h in R.ids)]
+                R.calls.clear()
+                env.detects.clear(); env.reached.clear(); env.executed.clear(); env.messages.clear()
+
+                async def processor(**kw: Any) -> Any:
+                    return await env.processing.process_resource_event(
+                        lifecycle=env.lifecycles.asap, indexers=env.indexers, registry=R.reg, settings=settings, memories=memories,
+                        memobase=env.ephemera.Memo(), resource=env.resource, event_queue=asyncio.Queue(), **kw)
+                task = loop.spawn(queueing.watcher(settings=settings, resource=env.resource, namespace=None, processor=processor))
+                delivered: list[str] = []
+
+                def put(t: Any, u: str) -> None:
+                    obj = W.objs[u]
+                    if obj is not None:
+                        stream.put_nowait({'type': t, 'object': copy.deepcopy(obj)})
+                        delivered.append(f'{t}:{u}')
+
+                def third_party(what: str, u: str) -> None:
+                    obj = W.objs[u]
+                    if obj is None:
+                        return
+                    if what == 'status':
+                        obj.setdefault('status', {})['observed'] = W.rv
+                    else:
+                        obj['spec']['x'] = f'edited-{W.rv}'
+                    W.bump(obj)
+                    put('MODIFIED', u)
+                for ph in proc['phases']:
+                    ctx.count('stream_phase', ph['a'] + ('+events-behind' if ph.get('behind') else ''))
+                    if ph['a'] == 'listing':
+                        for u in uids:
+                            put(None, u)
+                        stream.put_nowait(watching.Bookmark.LISTED)
+                        for b in ph['behind']:           # watch events that follow the listing before any worker has run
+                            third_party(b['what'], b['uid'])
+                        loop.run_for(20)
+                    elif ph['a'] == 'run':
+                        loop.run_for(ph['dt'])
+                    else:
+                        third_party(ph['a'], ph['uid'])
+                        loop.run_for(20 if ph.get('settle') else 0.1)
+                loop.run_for(30)
+                if task.done() and not task.cancelled() and task.exception() is not None:
+                    raise RuntimeError(f'observation point moved: the watcher failed: {task.exception()!r}')
+                calls = copy.deepcopy(R.calls)
+                task.cancel()
+                loop.run_for(1)
+                W.stream = None
+                ctx.count('stream_worker_limit', str(proc['worker_limit']))
+                ctx.count('stream_processed_events', str(min(len(env.detects), 12)))
+                summary.append({'process': pi, 'worker_limit': proc['worker_limit'], 'stream': delivered, 'owed': owed,
+                                'calls': [[c['ix'], c['uid'], c['reason'], c['outcome']] for c in calls]})
+                case = {'history': name, 'stream': spec, 'process': pi, 'runs': copy.deepcopy(summary)}
+                for ix in resumes:
+                    per: dict[str, int] = {}
+                    for c in calls:
+                        if c['ix'] == ix and c['outcome'] == 'ok':
+                            per[c['uid']] = per.get(c['uid'], 0) + 1
+                    for u in uids:
+                        n = per.get(u, 0)
+                        if u in owed:
+                            ctx.count('stream_resumed', str(min(n, 2)))
+                            if n != 1 and W.objs[u] is not None and not W.deleting(W.objs[u]):
+                                ctx.fail('an object that existed, was handled before and carried no unfinished progress when the operator '
+                                         'process started did not get its resume handler run to completion exactly once in that process '
+                                         '(judged at quiescence, through the real watcher and workers)',
+                                         {**case, 'uid': u, 'registration': ix}, observed=n, expected=1,
+                                         sig='resume-missed-end-to-end' if n == 0 else 'resume-twice-end-to-end')
+                        elif n > 0 and spec['states'][u] == 'never' and pi == 0:
+                            ctx.fail('a resume handler ran for an object that was never handled before', {**case, 'uid': u, 'registration': ix},
+                                     observed=n, sig='resume-on-create')
+                if len(owed) >= 2 and any(ph.get('behind') for ph in proc['phases']):
+                    ctx.nontriv(['stream', spec, pi])
+    finally:
+        watching.infinite_watch = orig_watch
+        W.stream = None
+        vloop.close_loop(loop)
+        env.world = None
+    ctx.sample({'stream': [f"limit={p['worker_limit']}: " + ' '.join(s['stream'][:10]) for p, s in zip(spec['processes'], summary)]}, limit=4)
+
+
+def run_stream_histories(ctx: fw.Ctx, env: Env, n: int) -> None:
+    r = ctx.rng
+    fixed = {'decls': [{'kind': 'resume', 'fn': 'fn0', 'id': 'h0', 'sel': False, 'script': ['ok'], 'slow': 0.25}],
+             'uids': ['uid-fa', 'uid-fb'], 'states': {'uid-fa': 'handled', 'uid-fb': 'handled'},
+             'processes': [{'worker_limit': 1, 'phases': [{'a': 'listing', 'behind': [{'uid': 'uid-fb', 'what': 'status'}]}]},
+                           {'worker_limit': None, 'phases': [{'a': 'listing', 'behind': [{'uid': 'uid-fa', 'what': 'status'}]}]}]}
+    run_stream_history(ctx, env, fixed, 'stream:fixed')
+    for hi in range(n):
+        run_stream_history(ctx, env, gen_stream_spec(r, hi), f'stream:{hi}')
+
+
+# --------------------------------------------------------------------------------------------
 # Known findings
 # --------------------------------------------------------------------------------------------
 
@@ -987,7 +1155,9 @@ def replay(ctx: fw.Ctx, body: dict) -> bool:
     ctx.matchers.update({'F1401': match_f1401})
     D: dict[str, list[fw.Case]] = {'resume_step': [], 'resume_trace': [], 'resume_cycle': []}
     with Env() as env:
-        if isinstance(case, dict) and 'replay' in case:
+        if isinstance(case, dict) and 'stream' in case:
+            run_stream_history(ctx, env, case['stream'], str(case.get('history', 'replay')))
+        elif isinstance(case, dict) and 'replay' in case:
             run_history(ctx, env, D, case['replay'], ctx.rng, str(case.get('history', 'replay')))
         else:
             run_keys(ctx, env, ctx.scale(60, 600))
@@ -1019,6 +1189,7 @@ def differential(ctx: fw.Ctx) -> None:
         D['resume_decl'] = run_decl_table(ctx, env)
         D['resume_select'] = run_select_table(ctx, env, ctx.scale(12, 80))
         run_histories(ctx, env, ctx.scale(160, 1500), D, load_corpus())
+        run_stream_histories(ctx, env, ctx.scale(60, 600))
     for name in ('resume_key', 'resume_detect', 'resume_decl', 'resume_select', 'resume_step', 'resume_trace'):
         ctx.differential(name, HEADER, D[name], shard=150 if name != 'resume_trace' else 40)
     ctx.differential('resume_cycle', HEADER_RC, D['resume_cycle'], shard=120)
